@@ -9,6 +9,16 @@ CLAIMS = {
   note="VTA call graph over-approximates dynamic calls; stdlib and x/text are not analysed; guards are recognised as SSA comparisons of the counter with a bound",
   technique="static analysis: call-graph SCC inventory + CFG path rules (edge dominance, must-precede/must-follow) on go/ssa",
   ref="DESIGN.md §4 C01"),
+ "C06": dict(
+  text="Two clauses of the segmentation property, decided statically: (history independence) with P-FX, Segmenter.Init writes every field that it or the line/grapheme/word iterators may read, and the rule cursor is a fresh local, so results cannot depend on earlier uses of the object; (one class per rune) the line, grapheme and word class tables are well-formed as unicode.Is requires, pairwise disjoint, and the two pre-filter tables equal the union of their families, for all 0x110000 code points. Agreement of the rule functions with UAX #29/#14 is NOT decided.",
+  note="field-based effects; unicode.Is trusted; the UAX rule tables are not available in the sandbox",
+  technique="static analysis: field-effect fixpoint (exposed-read/must-write) on go/ssa + constant evaluation of table literals",
+  ref="DESIGN.md §4 C06"),
+ "C07": dict(
+  text="Three clauses of the itemization property: (history independence) every field of shaping.Segmenter that Split may read before writing is classified (the pools are read by reset only to drop stale pointers); (frame) no function reachable from Split other than reset assigns Input.Text, Input.Size or Input.FontFeatures; (table preconditions) pairedDelims is strictly increasing and ScriptRanges sorted and disjoint, as the two bisections require. Exact cover, level parity, script uniformity and face resolution are NOT decided.",
+  note="field-based effects over the VTA call graph; x/text bidi.Paragraph.SetString trusted as a full reset",
+  technique="static analysis: field-effect fixpoint + who-may-write check over call-graph reachability + constant evaluation of tables",
+  ref="DESIGN.md §4 C07"),
  "C13": dict(
   text="Structural necessary conditions of 'reusable objects never leak state', decided for the caches of the reusable objects: (R-KEY/fields) every leaf of the shape-plan cache key that shapePlan.init fills from an input not covered by the map key is read by shapePlan.equal (data/control dependence of each stored value on each parameter, through callees); (R-KEY/projection) the key of the shaper's font cache is not a strict projection of an argument that the constructor of the cached value captures; (R-INV) every function outside the cached computation that may write a field read by Face.glyphExtentsRaw resets the extents cache on all paths, up to the exported API. Reset completeness of scratch state (R-STATE) is reported separately in the evidence when built. Equality of results with a fresh object in general is not decided.",
   note="field-based effects (one abstract object per type), VTA call graph; dependence analysis is scoped to the key constructor and its callees; classification tables for exempt fields carry one-line reasons in sa/c13.go",
